@@ -60,6 +60,12 @@ CHECKS = {
         text="Every integer type x boundary and random values x spellings (decimal, 0x, 0b, underscores, leading zeros, case) x typing mode x negation, 40 literals per program attributed by line: in-range literals must print exactly their value without L1142, out-of-range ones must raise L1142 on their line; all 256 byte values through every char-literal form; random strings (\\xHH, escapes, \\u{..} boundaries, adjacent-literal concatenation) observed byte by byte; malformed forms must be rejected with E140/E141/E160-E163.",
         note="`-0x80i8` is treated as the operator `-` on the literal `0x80i8` (sign folding is documented for decimal literals only). Out-of-range literals: only the lint is asserted.",
         design="5 C09"),
+    "C10": dict(
+        category="exploration",
+        technique="runtime monitor: metamorphic const-vs-var evaluation, array-length observation through every passing mode, and measured member-address strides",
+        text="Random constant expressions (all integer types, arithmetic, bitwise, shifts, casts, forward/backward references, size-of) are printed as `const` and as local `var` and compared with each other and with the reference interpreter; arrays `[N]T` for N = 0..8 from several constant expressions are observed through |a|, view, slice pointer, second-level calls and `&[N]T`, with |:[N]T| = N*|:T|; |:T| is compared with the measured stride between consecutive members of type T; oversized words must raise E380.",
+        note="Ground truth for layout is measured (addresses printed by the running program), not modelled. Undersized words are recorded, not judged (the property only names words larger than declared).",
+        design="5 C10"),
 }
 
 
